@@ -226,7 +226,7 @@ func c06Shape(fp string) string {
 
 func runC06(c *vx.Ctx) {
 	core.VScaleParams(core.VR1)
-	c.Rule = "all words of block contents (alphabet of C10) up to length L after a 14-block prefix with conversions, inbound ETXs, Qi outputs and a trimmable output; per block: Process x3 warm + x1 cold replica compared; commitment oracle after acceptance; whole history replayed on leveldb and pebble zone databases"
+	c.Rule = "all words of block contents (alphabet of C10) up to length L after a 14-block prefix with conversions, inbound ETXs, Qi outputs and a trimmable output; per block: Process x3 warm + x1 cold replica compared; commitment oracle after acceptance; whole history replayed on leveldb and pebble zone databases; trim-schedules: all interleavings of the trimming goroutines (spawns announced); map-order: the same block sequences and C07's mempool families followed under 12 fixed map-iteration draws and by a follower with a state snapshot tree; trim-race: free-running race-detector pass"
 	c.Assume("scaled protocol constants: " + fmt.Sprint(core.VScaled))
 	c.Assume("goroutine schedules are explored for the trimming goroutines (part trim-schedules), map-iteration start positions by part map-order; the repeated runs of part histories sample both besides")
 	maxLen := 2
